@@ -5,4 +5,5 @@ cd "$(dirname "$0")"
 export CARGO_NET_OFFLINE=true PYTHONHASHSEED=0
 [ -f engine/Cargo.lock ] || cp /repo/Cargo.lock engine/Cargo.lock
 (cd engine && cargo +1.80.1 build --offline -p tvadapter -p verif_support 2>&1 | tail -3)
-python3-vt -c 'from tv import setup_warm; setup_warm.main()'
+python3-vt -c "from tv.props import C12; C12.ensure_libgr()"
+python3-vt -c "from tv import setup_warm; setup_warm.main()"
